@@ -223,6 +223,8 @@ def run_solve(session, case, si, ctx, bm, arm, model, reach):
         ctx.clause("success.orientation")
         ctx.err("orientation_err_over_tol", ang / rt)
         bslack = 1e-6 * model.n if band else 0.0          # joint values inside the exponential's cut-off band
+        # a free solve may return joint values of 1e8 rad: sin/cos(S*theta) then carry eps*|theta| in the library and in the oracle alike
+        bslack += 1e-14 * float(np.max(np.abs(th)))
         if ang > rt * (1 + 1e-6) + ANG_SLACK + bslack:
             ctx.violation("success.orientation", "false_success/orientation/" + key_path,
                           {"angle_err": ang, "rot_tol": rt, "pos_tol": pt, "pos_err": perr}, sess)
@@ -239,7 +241,7 @@ def run_solve(session, case, si, ctx, bm, arm, model, reach):
         if ee is not None:
             ctx.clause("success.state")
             sc = max(1.0, float(np.linalg.norm(T[:3, 3])))
-            if tol.maxabs(ee - T) > (tol.ABS5 if band else 1e-7) * sc:
+            if tol.maxabs(ee - T) > ((tol.ABS5 if band else 1e-7) + 1e-14 * float(np.max(np.abs(th)))) * sc:
                 ctx.violation("success.state", "state_not_solution/" + key_path, {"err": tol.maxabs(ee - T)}, sess)
         if beyond:
             ctx.clause("unreachable")
